@@ -503,6 +503,7 @@ class Visitor(
         super().visit_table(source)
         self.context.symbols.push(self.generate_table(origin, features, predicate))
 
+    @bypass(resolve_source)
     def visit_reference(self, source: 'dsl.Reference') -> None:
         tables = self.context.tables
         # the referenced instance is only used through its handle - the hints collected for a same-named bare table
